@@ -33,6 +33,7 @@ type TokenGameResult struct {
 	Cease      int
 	Requests   map[string]int
 	Quiesced   bool
+	AllFired   bool
 }
 
 func findNodeIn(d *Definitions, id string) *Node {
@@ -55,6 +56,14 @@ func CheckTokenGame(pfx string, prog *Program, hist []simlog.Ev) *TokenGameResul
 	}
 	res := &TokenGameResult{M: m, Requests: map[string]int{}}
 	started := false
+	nStarts := 0
+	for _, n := range g.Nodes {
+		if n.Kind == "start" && len(n.Events) == 0 {
+			nStarts++
+		}
+	}
+	fired := map[string]bool{}
+	allFired := func() bool { return len(fired) >= nStarts }
 	visitsEnd := map[string]int{}
 	var errs []string
 	var finalVars map[string]any
@@ -68,6 +77,15 @@ func CheckTokenGame(pfx string, prog *Program, hist []simlog.Ev) *TokenGameResul
 		switch ev.Kind {
 		case "startall":
 			m.StartAll()
+			started = true
+			for _, n := range g.Nodes {
+				if n.Kind == "start" && len(n.Events) == 0 {
+					fired[n.ID] = true
+				}
+			}
+		case "startwith":
+			m.StartAt(ev.A)
+			fired[ev.A] = true
 			started = true
 		case "t:task":
 			if cancelled {
@@ -93,14 +111,14 @@ func CheckTokenGame(pfx string, prog *Program, hist []simlog.Ev) *TokenGameResul
 				continue // a sub-process' own cease-flow trace
 			}
 			res.Cease++
-			if !res.Quiesced && (m.Live() > 0) {
-				vl.add(pfx+"/cease-early", "step %d: CeaseFlowTrace while the token game still holds %d token(s): pending=%v waiting=%v", ev.Step, m.Live(), m.Pending(), m.Waiting())
+			if !res.Quiesced && (m.Live() > 0 || !allFired()) {
+				vl.add(pfx+"/cease-early", "step %d: CeaseFlowTrace while the token game still holds %d token(s) (start events fired: %d of %d): pending=%v waiting=%v", ev.Step, m.Live(), len(fired), nStarts, m.Pending(), m.Waiting())
 			}
 		case "complete":
 			if ev.A == "true" && !res.Quiesced {
 				res.Complete = true
-				if m.Live() > 0 {
-					vl.add(pfx+"/complete-early", "step %d: WaitUntilComplete returned true while the token game still holds %d token(s): pending=%v waiting=%v", ev.Step, m.Live(), m.Pending(), m.Waiting())
+				if m.Live() > 0 || !allFired() {
+					vl.add(pfx+"/complete-early", "step %d: WaitUntilComplete returned true while the token game still holds %d token(s) (start events fired: %d of %d): pending=%v waiting=%v", ev.Step, m.Live(), len(fired), nStarts, m.Pending(), m.Waiting())
 				}
 			}
 		case "cancel":
@@ -143,7 +161,8 @@ func CheckTokenGame(pfx string, prog *Program, hist []simlog.Ev) *TokenGameResul
 		}
 	}
 	// completion
-	if m.Live() == 0 {
+	res.AllFired = allFired()
+	if m.Live() == 0 && allFired() {
 		if !res.Complete {
 			vl.add(pfx+"/not-complete", "token game has no token left but WaitUntilComplete did not return true before quiescence")
 		}
